@@ -110,6 +110,9 @@ def correspond(ctx, scale):
         train = ci % 6 != 5
         stochastic = ci % 8 != 7
         kw = dict(codebook_size=K, use_cosine_sim=cosine, stochastic_sample_codes=stochastic, sample_codebook_temp=Tcfg)
+        if (ci // 2) % 3 == 1:
+            kw.update(straight_through=True, rotation_trick=False)        # straight-through (soft one-hot) estimator: the SAMPLING law must be the same
+            dist['straight_through_configs'] = dist.get('straight_through_configs', 0) + 1
         if residual:
             mod = ResidualVQ(dim=d, num_quantizers=2, **kw)
             cbs = [l._codebook for l in mod.layers]
